@@ -1909,7 +1909,7 @@ def remove_matrixzeros_sinex(sinex):
             if numCol==5:
                 if col[2]=="0.00000000000000e+00" and col[3]=="0.00000000000000e+00" and col[4]=="0.00000000000000e+00":
                     continue
-            out.write(line)
+            out.write(f"{line}\n")
         del solution_matrix_estimate
 
         # Write out the trailer line
